@@ -1083,6 +1083,8 @@ pub fn swarm_for(profile: &str, rng: &mut Rng, thorough: bool) -> Swarm {
             }
         }
         "ddl" => {
+            sw.p_fk = 20;
+            sw.p_pk = 85;
             sw.w.create_table = 8;
             sw.w.drop_table = 4;
             sw.w.create_index = 6;
@@ -1167,6 +1169,8 @@ pub fn swarm_for(profile: &str, rng: &mut Rng, thorough: bool) -> Swarm {
         }
         "crash" => {
             sw.cfg = DbConfig::durable();
+            // foreign keys with referential actions: part of what the catalog has to carry
+            sw.p_fk = 12;
             sw.n_ops = rng.range(4, if thorough { 40 } else { 22 }) as usize;
             sw.w.create_table = 5;
             sw.w.drop_table = 1;
